@@ -156,7 +156,7 @@ def build_plans(B, cfg, level, seed=0, only=None):
         plans.append(Plan(name, "fn", sig, cols2))
     # hand ops for object API
     nl = 182
-    objs = [("CompoundParser", "s", [strs]), ("NISTByName", "s", [strs]), ("NISTByIndex", "i", [np.arange(-3, nl + 3)]),
+    objs = [("CompoundParser", "s", [strs + domains.parser_fault_strings() + domains.subscript_edge_formulas()]), ("NISTByName", "s", [strs]), ("NISTByIndex", "i", [np.arange(-3, nl + 3)]),
             ("NISTList", "i", [np.array([0, 1])]), ("RadioByName", "s", [strs + ["55Fe", "241Am", "57Co"]]),
             ("RadioByIndex", "i", [np.arange(-3, 14)]), ("RadioList", "i", [np.array([0, 1])]),
             ("CrystalList", "i", [np.array([0, 1])]), ("AtomicNumberToSymbol", "i", [np.arange(-3, 126)]),
